@@ -162,7 +162,11 @@ def shape_obligations(hint_src, conf_src='BeartypeConf()', want=('C01', 'C02', '
                         add(f'C09.noncollection_not_iterated.path{pi}.{ei}.{op}', 'cost', pc, M.inst(tgt, uni.const(cabc.Collection)), 'C09', 'an item is only ever read from an object known to be a Collection')
             if 'C10' in want:
                 for ei, (op, tgt, detail) in enumerate(s.effects):
-                    if op not in ALLOWED_EFFECTS:
+                    if op == 'bool':
+                        # truth-testing runs the object's __bool__: fine for what user callables (validators) return, not for the subject or a part of it
+                        if z3.is_app(tgt) and tgt.decl().name() == 'callres': continue
+                        add(f'C10.effect.path{pi}.{ei}.bool', 'effect', pc, z3.BoolVal(False), 'C10', f'truth-testing {tgt}: runs __bool__ of the checked object (or of one of its items), which is not read-only protocol code the property allows')
+                    elif op not in ALLOWED_EFFECTS:
                         add(f'C10.effect.path{pi}.{ei}.{op}', 'effect', pc, z3.BoolVal(False), 'C10', f'operation {op} is not in the read-only whitelist')
                     elif op in ('iter', 'next') and tgt is not None:
                         add(f'C10.effect.path{pi}.{ei}.{op}', 'effect', pc, M.inst(tgt, uni.const(cabc.Collection)), 'C10', 'iteration only of re-iterable collections')
